@@ -102,9 +102,20 @@ func submit(b *o4.Bridge, h int, hk *hshake) {
 	returned := false
 	lastCalls := -1
 	for i := 0; i < 4 && !returned; i++ {
-		l.WaitFor(15*time.Second, func(_, bs wire.State) bool {
+		werr := l.WaitFor(15*time.Second, func(_, bs wire.State) bool {
 			return len(done) > 0 || (bs.Parked && bs.Inbox == 0 && bs.ReadCalls > lastCalls)
 		})
+		if st := l.B.State(); werr != nil && len(done) == 0 && st.InRead == 0 && !st.Closed {
+			// 15 s after its input arrived the server has neither returned nor come back to a Read: it is blocked INSIDE
+			// the handshake code (the replay filter's locks are process wide: nothing after this can be trusted to run)
+			w.Emit(vt.Ev{"event": "Wedged", "cid": cid, "h": h, "off": hk.off})
+			wedgedMu.Lock()
+			wedged = true
+			wedgedMu.Unlock()
+			l.A.Close()
+			l.B.Close()
+			return
+		}
 		lastCalls = l.B.State().ReadCalls
 		select {
 		case err = <-done:
@@ -136,7 +147,23 @@ func submit(b *o4.Bridge, h int, hk *hshake) {
 	l.B.Close()
 }
 
+var (
+	wedgedMu sync.Mutex
+	wedged   bool
+)
+
+func isWedged() bool {
+	wedgedMu.Lock()
+	defer wedgedMu.Unlock()
+	return wedged
+}
+
 func run(s *scenario) {
+	if isWedged() {
+		// a handler of an earlier bridge is blocked inside the handshake code, possibly holding a process-wide lock
+		w.Emit(vt.Ev{"event": "Skipped"})
+		return
+	}
 	avoidHourBoundary()
 	b, err := o4.NewBridge("", 0, false)
 	if err != nil {
@@ -158,6 +185,9 @@ func run(s *scenario) {
 		return &hshake{off: off, blob: c.Request(pad), hs: c}
 	}
 	for _, st := range s.Steps {
+		if isWedged() {
+			return
+		}
 		switch st.A {
 		case "plant":
 			// a long-running bridge: its eldest filter entry is N seconds short of the TTL
